@@ -4,6 +4,7 @@ set -u
 cd "$(dirname "$0")"
 export CARGO_NET_OFFLINE=true
 mkdir -p build work evidence/replays
+[ -e repo-link ] || ln -sfn /repo repo-link
 python3 tools/rs2v.py || echo "setup: translator reported a broken tie (checks will report it)"
 python3 tools/mkproject.py
 ( cd coq && coq_makefile -f _CoqProject -o Makefile >/dev/null && timeout 3000 make -k -j16 ) 2>&1 | tail -5
